@@ -22,6 +22,8 @@ U == 10000
 Sgn(d) == IF d = "+" THEN 1 ELSE -1
 Mismatch(res) == IF Variant = "half_step_dropped" THEN (IF res = 15 THEN 1197 ELSE 898)
                  ELSE (IF res = 15 THEN 12 ELSE 6)
+\* residuals TLC enumerates: every value up to the table entry (a dropped half step is a definite phase error)
+Residuals(res) == IF Variant = "half_step_dropped" THEN {Mismatch(res)} ELSE 0..Mismatch(res)
 \* orientation with which the magnetic sheet is injected
 HSign == CASE Variant = "dir_ignored" -> 1
            [] Variant = "h_sign" -> 0 - Sgn(cfg.dir)
@@ -35,11 +37,11 @@ PBack(r, d) == Back2(r, d) * Back2(r, d) + (IF cfg.beam = "gauss" THEN (GaussSha
 Init == /\ cfg \in Configs
         /\ phase = "Ramp" /\ ramp = 0 /\ pf = 0 /\ pb = 0
 RampUp == /\ phase = "Ramp" /\ ramp < RampSteps /\ ramp' = ramp + 1
-          /\ \E d \in 0..Mismatch(cfg.res) : pf' = PFwd(ramp + 1, d) /\ pb' = PBack(ramp + 1, d)
+          /\ \E d \in Residuals(cfg.res) : pf' = PFwd(ramp + 1, d) /\ pb' = PBack(ramp + 1, d)
           /\ UNCHANGED << cfg, phase >>
 Settle == /\ phase = "Ramp" /\ ramp = RampSteps /\ phase' = "Steady" /\ UNCHANGED << cfg, ramp, pf, pb >>
 Hold == /\ phase = "Steady"
-        /\ \E d \in 0..Mismatch(cfg.res) : pf' = PFwd(RampSteps, d) /\ pb' = PBack(RampSteps, d)
+        /\ \E d \in Residuals(cfg.res) : pf' = PFwd(RampSteps, d) /\ pb' = PBack(RampSteps, d)
         /\ UNCHANGED << cfg, phase, ramp >>
 Next == RampUp \/ Settle \/ Hold
 Spec == Init /\ [][Next]_vars
